@@ -150,7 +150,13 @@ class Run:
         ev = {'property_id': self.pid, 'tier': self.tier, 'seed': int(self.seed), 'level': 'model_checking', 'coverage': cov,
               'assumptions': self.assumptions, 'wall_s': round(wall, 2), 'violations': len(self.violations)}
         os.makedirs(EVID, exist_ok=True)
-        with open(os.path.join(EVID, self.pid + '.json'), 'w') as f:
+        # (a single-case replay describes one case, not a run of the check: its evidence goes next to the replay files and leaves the
+        #  evidence of the last full run alone)
+        target = os.path.join(EVID, self.pid + '.json')
+        if getattr(self, 'single_case_replay', False):
+            os.makedirs(REPLAY, exist_ok=True)
+            target = os.path.join(REPLAY, self.pid + '-replay-evidence.json')
+        with open(target, 'w') as f:
             json.dump(ev, f, indent=1, default=_jsonable)
         for kid, v in self.known_hits.items():
             print('KNOWN-FINDING: property=%s %s (observed %d times, e.g. %s)' % (self.pid, v['what'], v['count'],
@@ -185,7 +191,17 @@ def main(argv=None):
         if a.replay:
             with open(a.replay) as f:
                 rep = json.load(f)
-            mod.replay(run, rep)
+            try:
+                run.single_case_replay = True
+                mod.replay(run, rep)
+            except (KeyError, TypeError, IndexError) as ex:
+                if any((os.sep + 'graphslam' + os.sep) in fr.filename and (os.sep + 'harness' + os.sep) not in fr.filename for fr in traceback.extract_tb(ex.__traceback__)):
+                    raise
+                # the file describes a violation found by a part of the check that has no single-case replay (a monitor, a recorded session, a
+                # fixture): the whole check is run again with the seed and tier of the run that wrote the file
+                print('   (no single-case replay for this kind of violation: re-running the check with seed %s, tier %s)' % (rep.get('seed', seed), rep.get('tier', tier)))
+                run = Run(pid, rep.get('tier', tier) if rep.get('tier') in ('quick', 'thorough') else tier, int(rep.get('seed', seed) or 0))
+                mod.check(run)
         else:
             # the replay files of a run describe THAT run: those of earlier runs of this property are removed first
             import glob
